@@ -53,6 +53,8 @@ BLOCKS = [
     'That part lying north of the river',
     'Beginning at the NE corner thereof; thence South 660 feet',
     'Lots 1 and 2,\nS/2NE/4',
+    'Lot 4 and all accretions thereof',
+    'NE/4, being located in the Powder River Basin',
 ]
 
 DIMS = {
